@@ -20,6 +20,11 @@ pub fn read_menu() -> Vec<(String, Step)> {
     let fail = ethcall(1, Some(s.clone()), &[4]);
     let boom = ethcall(1, Some(s.clone()), &[7]);
     let deploy = ethcall(2, None, &crate::asm::s_initcode());
+    // call data so large that the bisection of the estimate tries gas limits below the intrinsic cost:
+    // the simulation then fails in validation, which is the error path inside the multi-call loop
+    let mut big = vec![6u8, 0];
+    big.extend(std::iter::repeat(0x11u8).take(3000));
+    let bigget = ethcall(0, Some(s.clone()), &big);
     let pre = json!({"opReturnTxIds": [h32(0x31), h32(0x32), h32(0x33)], "bitcoinTxHexes": {}});
     let z = zero32();
     vec![
@@ -38,6 +43,8 @@ pub fn read_menu() -> Vec<(String, Step)> {
         ("estimate:fail".into(), rd("eth_estimateGas", json!([fail, null]), true)),
         ("estimateMany:set,create".into(), rd("eth_estimateGasMany", json!([[set, create], null, null]), true)),
         ("estimateMany:set,get,die".into(), rd("eth_estimateGasMany", json!([[set, get0, die], null, pre]), true)),
+        ("estimateMany:set,bigdata".into(), rd("eth_estimateGasMany", json!([[set, bigget], null, null]), true)),
+        ("estimate:bigdata".into(), rd("eth_estimateGas", json!([bigget, null]), true)),
         ("balance".into(), rd("brc20_balance", json!([pkscript(1), "ordi"]), true)),
         ("getLogs".into(), rd("eth_getLogs", json!([{}]), false)),
         ("getBlock".into(), rd("eth_getBlockByNumber", json!(["latest", true]), false)),
